@@ -18,13 +18,21 @@ func init() { register("C18", checkC18) }
 
 // stateValidated explores a gogo state type's Validate() and returns the facts / atom classes common to all accepting paths.
 type stateVal struct {
-	Facts map[string]bool
+	Facts map[string]bool   // facts common to all accepting paths
+	Paths []map[string]bool // fact set of each accepting path
 	Attrs map[string]AtomAttr
 	OK    bool
 }
 
+var stateValCache = map[string]*stateVal{}
+
 func exploreStateValidate(m *Model, x *Explorer, pkgSuffix, typeName string) *stateVal {
+	ck := fmt.Sprintf("%p|%s|%s", m, pkgSuffix, typeName)
+	if v, ok := stateValCache[ck]; ok {
+		return v
+	}
 	out := &stateVal{Facts: map[string]bool{}, Attrs: map[string]AtomAttr{}}
+	stateValCache[ck] = out
 	pk := m.P.Pkg(pkgSuffix)
 	if pk == nil {
 		return out
@@ -57,6 +65,7 @@ func exploreStateValidate(m *Model, x *Explorer, pkgSuffix, typeName string) *st
 		for _, f := range o.St.facts {
 			cur[f] = true
 		}
+		out.Paths = append(out.Paths, cur)
 		if first {
 			for f := range cur {
 				out.Facts[f] = true
